@@ -339,6 +339,52 @@ example :
   decide
 end f7
 
+/-! ### a lost creation race: absent at the load, somebody else's object there when the POST arrives -/
+
+/-- One reconcile is one request.  When the load found nothing that request is a POST (or nothing),
+    so if a competitor has created the object in the meantime — whatever it looks like, whatever
+    owners it lists — the server answers 409 and the competitor's object is exactly as it was:
+    no PATCH with the create payload (whose `ownerReferences` list knows nothing of the live one and
+    would replace it) follows within the reconcile.  The next reconcile loads the object and is then
+    subject to `patch_preserves_live_owners`. -/
+theorem lost_creation_race_leaves_winner_alone (enc : JVal → String) (defNs : String)
+    (cmp : JVal → JVal → Bool) (pp : Bool) (rf : Rf) (owner : Owner) (theirs : JVal) :
+    Rf.serverAfter (some theirs) (reconcile enc defNs cmp pp rf owner none).request = some theirs := by
+  cases h : (reconcile enc defNs cmp pp rf owner none).request with
+  | none => rfl
+  | some req =>
+    have hm := Rf.absent_request_is_post h
+    simp [Rf.serverAfter, hm]
+
+/-- … in particular every owner reference the winner carries is still there, in place -/
+theorem lost_creation_race_keeps_winner_owners (enc : JVal → String) (defNs : String)
+    (cmp : JVal → JVal → Bool) (pp : Bool) (rf : Rf) (owner : Owner) (theirs : JVal) :
+    (Rf.serverAfter (some theirs) (reconcile enc defNs cmp pp rf owner none).request).map ownerRefsOf =
+      some (ownerRefsOf theirs) := by
+  rw [lost_creation_race_leaves_winner_alone]
+  rfl
+
+/-- the two reconciles of a lost race on the F7 function: the first (nothing loaded, the
+    competitor's object — owned by someone else — arrives before the POST) leaves it alone, the
+    second (it is loaded now) adopts it by a PATCH that keeps the competitor's owner and adds ours;
+    and `serverAfter` is not vacuous: the same POST against a cluster that is still empty creates -/
+example :
+    let theirs : JVal :=
+      .obj [("apiVersion", .str "verif.test/v1"), ("kind", .str "Widget"),
+            ("metadata", .obj [("name", .str "obj"), ("namespace", .str "ns1"), ("ownerReferences", .arr [f7Other])]),
+            ("spec", .obj [("a", .int 2)])]
+    let run (stored : Option JVal) := reconcile (fun _ => "") "default" (fun _ _ => false) true f7Rf f7Owner stored
+    let after1 := Rf.serverAfter (some theirs) (run none).request
+    let after2 := Rf.serverAfter after1 (run after1).request
+    (run none).action = .create ∧
+    (after1.map fun o => (hasUid (.str "uid-other") (ownerRefsOf o), hasUid (.str "uid-parent") (ownerRefsOf o)))
+      = some (true, false) ∧
+    (run after1).action = .patch ∧
+    (after2.map fun o => (hasUid (.str "uid-other") (ownerRefsOf o), hasUid (.str "uid-parent") (ownerRefsOf o)))
+      = some (true, true) ∧
+    ((Rf.serverAfter none (run none).request).map fun o => hasUid (.str "uid-parent") (ownerRefsOf o)) = some true := by
+  decide
+
 /-! ## non-vacuity -/
 
 section examples
